@@ -20,6 +20,63 @@ pub fn run_codeid(toks: &[&str]) -> String {
     }
 }
 
+// C19: cidrt <pe:<timestamp>:<size> | uuid:<32 hex> | elf:<hex>>  ->  "<to_string> | <from_str(to_string) rendered as in run_codeid>"
+pub fn run_cidrt(toks: &[&str]) -> String {
+    let spec = toks.first().copied().unwrap_or("");
+    let parts: Vec<&str> = spec.split(':').collect();
+    let unhex = |h: &str| -> Vec<u8> { (0..h.len() / 2).map(|i| u8::from_str_radix(&h[2 * i..2 * i + 2], 16).unwrap()).collect() };
+    let id = match parts[0] {
+        "pe" => CodeId::PeCodeId(samply_symbols::PeCodeId { timestamp: parts[1].parse().unwrap(), image_size: parts[2].parse().unwrap() }),
+        "uuid" => {
+            CodeId::MachoUuid(samply_symbols::debugid::DebugId::from_breakpad(&format!("{}0", parts[1].to_uppercase())).unwrap().uuid())
+        }
+        _ => CodeId::ElfBuildId(samply_symbols::ElfBuildId::from_bytes(&unhex(parts.get(1).copied().unwrap_or("")))),
+    };
+    let s = id.to_string();
+    let hex: String = s.bytes().map(|b| format!("{:02x}", b)).collect();
+    format!("{} | {}", s, run_codeid(&[&hex]))
+}
+
+// C19: names <file> <relative address>...  ->  function name per address ("-" when the lookup finds nothing), separated by \x1f
+pub fn run_names(toks: &[&str]) -> String {
+    let mut h = MemHelper::default();
+    let path = toks[0];
+    match std::fs::read(path) {
+        Ok(d) => {
+            // a .gnu_debuglink target next to the binary is part of "the binary recorded in the profile" (wholesym looks there too)
+            use samply_symbols::object::Object;
+            if let Ok(f) = samply_symbols::object::File::parse(&d[..]) {
+                if let Ok(Some((name, _crc))) = f.gnu_debuglink() {
+                    if let Some(dir) = std::path::Path::new(path).parent() {
+                        let cand = dir.join(String::from_utf8_lossy(name).to_string());
+                        if let Ok(dd) = std::fs::read(&cand) {
+                            let loc = cand.to_string_lossy().to_string();
+                            h.files.insert(loc.clone(), Arc::new(dd));
+                            h.debuglink_candidates = vec![loc];
+                        }
+                    }
+                }
+            }
+            h.files.insert(path.to_string(), Arc::new(d));
+        }
+        Err(_) => return "LOADERR".into(),
+    }
+    let sm = samply_symbols::SymbolManager::with_helper(h);
+    let map = match futures::executor::block_on(sm.load_symbol_map_from_location(crate::memhelper::Loc(path.to_string()), None)) {
+        Ok(m) => m,
+        Err(_) => return "LOADERR".into(),
+    };
+    let mut out = vec![format!("{}", map.debug_id().breakpad())];
+    for t in &toks[1..] {
+        let a: u32 = t.parse().unwrap();
+        out.push(match map.lookup_sync(samply_symbols::LookupAddress::Relative(a)) {
+            Some(info) => info.symbol.name,
+            None => "-".into(),
+        });
+    }
+    out.join("\x1f")
+}
+
 pub fn run_bpfuzz(toks: &[&str]) -> String {
     let data = std::fs::read(toks[0]).expect("sym file");
     let index = if toks[1] == "-" { None } else { Some(std::fs::read(toks[1]).expect("symindex file")) };
